@@ -69,6 +69,9 @@ pub fn replay_file(path: &str) -> i32 {
 	let prop = v["property"].as_str().unwrap_or("").to_string();
 	let case = &v["case"];
 	let run_once = || -> Option<String> {
+		if case["kind"] == "crash" {
+			return Some("the recorded event is a crash of the whole check process; re-run the check to reproduce it".into());
+		}
 		match prop.as_str() {
 			"C01" => c01::replay(case),
 			"C02" => c02::replay(case),
